@@ -8,8 +8,9 @@ body and every sequence (no bound).  Numbers in the statements are those of Open
 (enum ofp_error_type, ofp_bad_request_code, ofp_bad_action_code, ofp_flow_mod_failed_code, ofp_port_mod_failed_code,
 ofp_queue_op_failed_code, ofp_port, OFPQ_ALL).
 
-The model follows the code with the repairs D9, D10, D27, C13-1 (fixes/*.diff).  One deviation from the standard is
-left in code and model (unknown buffer id answered by silence): `buffer_unknown_defect`. -/
+The model follows the code with the repairs D9, D10, D27, C13-1 (committed) and C13-2 (fixes/C13-2_buffer_unknown_error.diff:
+a packet_out / flow_mod naming a buffer that does not exist or was already used is answered with
+BAD_REQUEST/BUFFER_UNKNOWN resp. BUFFER_EMPTY instead of silence). -/
 namespace Pox.C13
 open Pox.SwitchReq
 
@@ -32,7 +33,7 @@ open Generated.SwitchDispatch in
 /-- the library's constants used by the model have the values of the standard -/
 theorem consts_spec :
     OFPET_BAD_REQUEST = 1 ∧ OFPET_BAD_ACTION = 2 ∧ OFPET_FLOW_MOD_FAILED = 3 ∧ OFPET_PORT_MOD_FAILED = 4 ∧ OFPET_QUEUE_OP_FAILED = 5 ∧
-    OFPBRC_BAD_STAT = 2 ∧ OFPBRC_BAD_VENDOR = 3 ∧ OFPBAC_BAD_TYPE = 0 ∧
+    OFPBRC_BAD_STAT = 2 ∧ OFPBRC_BAD_VENDOR = 3 ∧ OFPBRC_BUFFER_EMPTY = 7 ∧ OFPBRC_BUFFER_UNKNOWN = 8 ∧ OFPBAC_BAD_TYPE = 0 ∧
     OFPFMFC_ALL_TABLES_FULL = 0 ∧ OFPFMFC_OVERLAP = 1 ∧ OFPFMFC_EPERM = 2 ∧ OFPFMFC_BAD_EMERG_TIMEOUT = 3 ∧ OFPFMFC_BAD_COMMAND = 4 ∧
     OFPPMFC_BAD_PORT = 0 ∧ OFPPMFC_BAD_HW_ADDR = 1 ∧ OFPQOFC_BAD_PORT = 0 ∧ OFPQOFC_BAD_QUEUE = 1 ∧
     OFPP_MAX = 0xff00 ∧ OFPP_IN_PORT = 0xfff8 ∧ OFPP_TABLE = 0xfff9 ∧ OFPP_FLOOD = 0xfffb ∧ OFPP_ALL = 0xfffc ∧
@@ -215,8 +216,10 @@ theorem handled (s : SwitchState) (m : Msg) (hk : m.kind.isSome) (hwf : m.WF) (h
     obtain ⟨s', o, h1, h2⟩ := rxPacketOut_ok s x b d acts hsc
     refine ⟨s', o, e.trans h1, ?_⟩
     intro r hr
-    rcases h2 r hr with h | ⟨h, _⟩
+    rcases h2 r hr with h | ⟨h, _⟩ | ⟨_, h | h⟩
     · exact .inl h
+    · subst h; exact .inr (.inl rfl)
+    · subst h; exact .inr (.inl rfl)
     · subst h; exact .inr (.inl rfl)
   | flowMod x c mk p ck f i hd op b acts =>
     have e : rxMessage s (.flowMod x c mk p ck f i hd op b acts) = rxFlowMod s x c mk p ck f i hd op b acts := rfl
@@ -251,7 +254,7 @@ theorem unhandled_type_fails (s : SwitchState) (x : Nat) : rxMessage s (.unhandl
 open Generated.SwitchDispatch in
 /-- **silent_kinds**: set_config, echo_reply and a second hello write nothing; an accepted port_mod, a packet_out whose
 action types are all supported, and an accepted flow_mod write only asynchronous notifications (port-status,
-packet-in, flow-removed) — never a reply and never an error. -/
+packet-in, flow-removed) — never a reply and never an error (a buffer id, when one is named, must name a stored packet). -/
 theorem silent_kinds (s : SwitchState) :
     (∀ x f l, rxMessage s (.setConfig x f l) = .ok ({ s with missSendLen := l, configFlags := f }, [])) ∧
     (∀ x b, rxMessage s (.echoReply x b) = .ok (s, [])) ∧
@@ -259,9 +262,11 @@ theorem silent_kinds (s : SwitchState) :
     (∀ x p hw c mk q, s.ports.find? (·.no == p) = some q → q.hw = hw →
         ∃ s' out, rxMessage s (.portMod x p hw c mk) = .ok (s', out) ∧ ∀ r ∈ out, r.isAsync = true) ∧
     (∀ x b d acts, actsInScope acts → (∀ a ∈ acts, (actionTable.lookup a.ty).isSome) →
+        (d = true ∨ ∀ id, b = some id → bufferLive s id = true) →
         ∃ s' out, rxMessage s (.packetOut x b d acts) = .ok (s', out) ∧ ∀ r ∈ out, r.isAsync = true) ∧
     (∀ x c mk p ck f i hd op b acts, c ≤ 4 → hasBit f OFPFF_EMERG = false → hasBit f OFPFF_CHECK_OVERLAP = false →
         s.table.length < s.maxEntries → actsInScope acts → (∀ a ∈ acts, (actionTable.lookup a.ty).isSome) →
+        (∀ id, b = some id → bufferLive s id = true) →
         ∃ s' out, rxMessage s (.flowMod x c mk p ck f i hd op b acts) = .ok (s', out) ∧ ∀ r ∈ out, r.isAsync = true) := by
   refine ⟨fun _ _ _ => rfl, fun _ _ => rfl, ?_, ?_, ?_, ?_⟩
   · intro x h
@@ -276,15 +281,18 @@ theorem silent_kinds (s : SwitchState) :
     rw [hq] at hr'
     simp only [hhw, ne_eq, not_true_eq_false, if_false] at hr'
     exact portModBits_async _ _ _ _ r hr'
-  · intro x b d acts hs hk
+  · intro x b d acts hs hk hlive
     have e : rxMessage s (.packetOut x b d acts) = rxPacketOut s x b d acts := rfl
     obtain ⟨s', o, h1, h2⟩ := rxPacketOut_ok s x b d acts hs
     refine ⟨s', o, e.trans h1, ?_⟩
     intro r hr
-    rcases h2 r hr with h | ⟨_, a, ha, hn⟩
+    rcases h2 r hr with h | ⟨_, a, ha, hn⟩ | ⟨⟨hd, id, hb, hdead⟩, _⟩
     · exact h
     · have := hk a ha; rw [hn] at this; cases this
-  · intro x c mk p ck f i hd op b acts hc he ho hlen hs hk
+    · rcases hlive with h | h
+      · rw [h] at hd; cases hd
+      · rw [h id hb] at hdead; cases hdead
+  · intro x c mk p ck f i hd op b acts hc he ho hlen hs hk hlive
     have e : rxMessage s (.flowMod x c mk p ck f i hd op b acts) = rxFlowMod s x c mk p ck f i hd op b acts := rfl
     rw [e]
     obtain ⟨h, hl⟩ := flowModTable_some hc
@@ -351,9 +359,13 @@ theorem silent_kinds (s : SwitchState) :
       intro r hr
       rcases List.mem_append.mp hr with h1 | h1
       · exact hfm r h1
-      · rcases a2 r h1 with h2 | ⟨_, a, ha, hn⟩
+      · rcases a2 r h1 with h2 | ⟨_, a, ha, hn⟩ | ⟨hdead, _⟩
         · exact h2
         · have := hk a ha; rw [hn] at this; cases this
+        · have hb : (runFlowMod h s x c mk p ck f i hd op acts).1.buffers = s.buffers := runFlowMod_buffers h s x c mk p ck f i hd op acts
+          have : bufferLive (runFlowMod h s x c mk p ck f i hd op acts).1 id = bufferLive s id := by
+            simp only [bufferLive, hb]
+          rw [this, hlive id rfl] at hdead; cases hdead
 
 /-! ## order -/
 
@@ -429,8 +441,11 @@ theorem errors_spec (s : SwitchState) (x : Nat) :
     (∀ mk p ck f i hd op acts, hasBit f 4 = false → hasBit f 2 = false → s.maxEntries ≤ (tableForAdd 0 s.table mk p).length →
         rxMessage s (.flowMod x 0 mk p ck f i hd op none acts) = .ok ({ s with table := tableForAdd 0 s.table mk p }, [.error x 3 0])) ∧
     -- an action of a type the switch does not implement ↦ BAD_ACTION/BAD_TYPE
-    (∀ b a rest, actionTable.lookup a.ty = none → rxMessage s (.packetOut x b true (a :: rest)) = .ok (s, [.error x 2 0])) := by
-  refine ⟨?_, ?_, ?_, ?_, ?_, ?_, fun _ => rfl, ?_, ?_, ?_, ?_, ?_⟩
+    (∀ b a rest, actionTable.lookup a.ty = none → rxMessage s (.packetOut x b true (a :: rest)) = .ok (s, [.error x 2 0])) ∧
+    -- a buffer id that does not exist ↦ BAD_REQUEST/BUFFER_UNKNOWN; one that was already used ↦ BAD_REQUEST/BUFFER_EMPTY (repair C13-2)
+    (∀ id acts, (id = 0 ∨ s.buffers.length ≤ id - 1) → rxMessage s (.packetOut x (some id) false acts) = .ok (s, [.error x 1 8])) ∧
+    (∀ id acts, id ≠ 0 → s.buffers[id - 1]? = some false → rxMessage s (.packetOut x (some id) false acts) = .ok (s, [.error x 1 7])) := by
+  refine ⟨?_, ?_, ?_, ?_, ?_, ?_, fun _ => rfl, ?_, ?_, ?_, ?_, ?_, ?_, ?_⟩
   · intro p hw c mk h
     have e : rxMessage s (.portMod x p hw c mk) = .ok (rxPortMod s x p hw c mk) := rfl
     rw [e]; unfold rxPortMod; rw [h]; rfl
@@ -485,8 +500,24 @@ theorem errors_spec (s : SwitchState) (x : Nat) :
   · intro b a rest hl
     have e : rxMessage s (.packetOut x b true (a :: rest)) = processActions x s (a :: rest) := rfl
     rw [e]; unfold processActions; rw [hl]; rfl
-
-/-! ## what the current code does not do (proposed known finding C13-2) -/
+  · intro id acts hid
+    have e : rxMessage s (.packetOut x (some id) false acts) = processFromBuffer x s acts id := rfl
+    rw [e]; unfold processFromBuffer
+    by_cases h0 : id = 0
+    · rw [if_pos h0]; rfl
+    · rw [if_neg h0, dif_neg (by omega)]; rfl
+  · intro id acts h0 hslot
+    have e : rxMessage s (.packetOut x (some id) false acts) = processFromBuffer x s acts id := rfl
+    rw [e]; unfold processFromBuffer
+    rw [if_neg h0]
+    have hlt : id - 1 < s.buffers.length := by
+      rcases Nat.lt_or_ge (id - 1) s.buffers.length with h | h
+      · exact h
+      · rw [List.getElem?_eq_none h] at hslot; cases hslot
+    rw [dif_pos hlt]
+    have hv : s.buffers[id - 1] = false := by
+      rw [List.getElem?_eq_getElem hlt] at hslot; exact Option.some.inj hslot
+    rw [hv]; rfl
 
 /-- a state with one port, one stored flow and no buffered packet -/
 def demoState : SwitchState :=
@@ -494,20 +525,6 @@ def demoState : SwitchState :=
     hasSentHello := true, ports := [{ no := 1, hw := 0x020000010001, config := 2, state := 0 }], portStats := [1, 9],
     table := [{ mkey := some 1, priority := 5, cookie := 77, flags := 1, outs := [2] }], lookupCount := 0, matchedCount := 0,
     buffers := [] }
-
-/-- the standard's answer to a packet-out naming a buffer that does not exist: BAD_REQUEST (1) / BUFFER_UNKNOWN (8) -/
-def BufferSpec (s : SwitchState) (x id : Nat) (acts : List Act) : Prop :=
-  s.buffers.getD (id - 1) false = false → rxMessage s (.packetOut x (some id) false acts) = .ok (s, [.error x 1 8])
-
-/-- the switch (code and model) answers an unknown buffer id with silence (switch.py:714-720 only logs) -/
-theorem buffer_unknown_defect : ¬ BufferSpec demoState 7 3 [] := by
-  intro h
-  have h2 := h (by decide)
-  have h3 : rxMessage demoState (.packetOut 7 (some 3) false []) = .ok (demoState, []) := rfl
-  rw [h3] at h2
-  injection h2 with h2
-  injection h2 with _ h2
-  cases h2
 
 /-! ## non-vacuity -/
 
@@ -523,15 +540,19 @@ example : demoState.ports.find? (·.no == 9) = none ∧ knownPort demoState 9 = 
     (∃ q, demoState.ports.find? (·.no == 1) = some q ∧ q.hw ≠ 5) ∧ checkOverlap 5 none demoState.table = true ∧
     demoState.maxEntries ≤ (tableForAdd 0 { demoState with maxEntries := 1 }.table none 5).length + 2 := by
   refine ⟨by decide, by decide, ⟨_, rfl, by decide⟩, by decide, by decide⟩
+/-- the buffer hypotheses of `silent_kinds` / `errors_spec` are satisfiable: after a packet-in slot 1 is live, slot 2 flushed -/
+example : bufferLive { demoState with buffers := [true, false] } 1 = true ∧
+    ({ demoState with buffers := [true, false] } : SwitchState).buffers[2 - 1]? = some false := by decide
 /-- a whole sequence: add a flow, read the table, barrier, delete with notification, read again -/
 example : (run demoState
     [.flowMod 1 0 none 9 42 1 0 0 65535 none [⟨0, 3⟩], .statsRequest 2 .table, .barrierRequest 3,
      .flowMod 4 3 none 0 0 0 0 0 65535 none [], .statsRequest 5 (.aggregate none 0 65535), .portMod 6 1 0x020000010001 1 1,
-     .packetOut 7 none true [⟨0, 65533⟩, ⟨65535, 0⟩], .hello 8, .queueGetConfigRequest 9 4]).map (·.2) =
+     .packetOut 7 none true [⟨0, 65533⟩, ⟨65535, 0⟩], .hello 8, .queueGetConfigRequest 9 4,
+     .packetOut 10 (some 1) false [⟨0, 2⟩], .packetOut 11 (some 1) false [], .packetOut 12 (some 5) false []]).map (·.2) =
     .ok [[], [.statsReply 2 3 (.table 3 2 0 0)], [.barrierReply 3],
          [.flowRemoved { mkey := none, priority := 9, cookie := 42, flags := 1, outs := [3] } 2,
           .flowRemoved { mkey := some 1, priority := 5, cookie := 77, flags := 1, outs := [2] } 2],
          [.statsReply 5 2 (.aggregate 0)], [.portStatus 2 { no := 1, hw := 0x020000010001, config := 3, state := 1 }],
-         [.packetIn (some 1), .error 7 2 0], [], [.error 9 5 0]] := by rfl
+         [.packetIn (some 1), .error 7 2 0], [], [.error 9 5 0], [], [.error 11 1 7], [.error 12 1 8]] := by rfl
 
 end Pox.C13
